@@ -21,7 +21,7 @@ static void vp_string_empty(void *s)
 {
   /* str(): the captured bytes */
   vp_std_string *x = (vp_std_string *)s;
-  VP_ASSERT(vp_cap_n == vp_hint_len, "rendering has the announced length");
+  VP_ASSERT(vp_cap_n == vp_hint_len, "stream model expectation: rendering has the announced length");
   VP_ASSUME(vp_cap_n == vp_hint_len);
   uint64_t n = vp_hint_len;
   if (n < 16) x->p = x->u.buf;
@@ -70,7 +70,7 @@ static void vp_put_unsigned(void *o, uint64_t v)
       unsigned k = vp_hint_digits;
       /* the value has exactly k digits in this radix (k announced by the harness) */
       _Bool fits = (k * sh >= 64 || (v >> (k * sh)) == 0) && (k == 1 || (v >> ((k - 1) * sh)) != 0) && k >= 1 && k <= 22;
-      VP_ASSERT(fits, "number reaching the stream has the announced digit count");
+      VP_ASSERT(fits, "stream model expectation: number reaching the stream has the announced digit count");
       VP_ASSUME(fits);
       if ((fl & 0x200) && v != 0) { vp_cap_put('0'); if (base == 8) vp_cap_put((fl & 0x4000) ? 'X' : 'x'); }
       for (unsigned i = 0; i < 22; ++i)
